@@ -24,6 +24,20 @@ CLAIMED["C03"] = ("Theorems: every successful fixed-input / fixed-output swap of
 CLAIMED["C04"] = ("Theorems: add uses the largest at-ratio deposit that fits, mints min of the two floors, refunds the rest; remove pays the exact floors or fails; "
     "first deposit locks MINIMUM_LIQUIDITY in the pair and LP supply can never fall below it afterwards (step_S_floor); initial-adder gate. "
     "Tied to dex/pair by differential replay + pro-rata monitors.", "7 C04", "Coq characterisation theorems + inductive floor invariant + correspondence")
+CLAIMED["C05"] = ("Inductive invariants of the farm model for every reachable state: reserve = generated - paid, reward balance = reserve + donations, "
+    "farming tokens held = farm-token supply = sum of outstanding positions, DSC*(reserve - boosted pools) >= un-floored claimable base rewards of all positions "
+    "(solvency, uses the ceil-merge lemma), hence no legitimate claim/exit can underflow a reward counter. Boosted payouts enter as inputs bounded by the pools (C11 bounds them per week). "
+    "Tied to dex/farm by differential replay; the repaired defects F1/F4 stay as regression histories.", "7 C05", "Coq inductive invariants (accounting, ledger, solvency) + correspondence")
+CLAIMED["C06"] = ("Theorems: settlement grows the index by exactly floor((rate*blocks - boosted cut)*DSC/supply) and never otherwise; index monotone; claim pays floor(amount*(RPS_now-RPS_entry)/DSC) + boosted; "
+    "a new position records the index settled to its own block (not retroactive); base paid <= base generated over every history; admin changes settle with the old parameters first.", "7 C06",
+    "Coq characterisation theorems + reachability invariant + correspondence")
+CLAIMED["C07"] = ("Theorems: supply = sum of outstanding positions = sum held by accounts in every reachable state; merge preserves principal/compounded sums and never raises the un-rounded entitlement "
+    "(ceil-weighted index), for any number of merged positions; split floors the compounded share and complementary parts never exceed the whole; owner totals: see level note.", "7 C07",
+    "Coq ledger invariant + merge/split algebra + correspondence")
+CLAIMED["C17"] = ("25 theorems on the price-discovery model: phase = documented piecewise function of the block and monotone; gates per phase; linear-then-fixed penalty exact, within bounds, "
+    "staying in the pool; tracked balances = real holdings and supply = circulating redeem tokens in every reachable state before redeem; redeem pays floor(pool*amount/supply) once, total payouts <= pool over any history; "
+    "price floor for withdrawals and launched-token deposits (after the F6 repair, with the bootstrap case stated). Tied to dex/price-discovery by differential replay + monitors.", "7 C17",
+    "Coq invariants + characterisation theorems + correspondence")
 NOT_YET = {}
 
 def main():
